@@ -320,3 +320,362 @@ Proof.
   intros [_ H] Hc Hin. rewrite Forall_forall in H. apply H, tchar_props in Hin.
   destruct Hin as (_ & A & B & C & D). destruct Hc as [Hc|[Hc|[Hc|Hc]]]; subst c; contradiction.
 Qed.
+
+(* ================= 3. parsing a rendered head ================= *)
+(* normalise nested appends to the right *)
+Ltac app_norm := repeat (progress (cbn [app]; rewrite <- ?app_assoc)).
+Definition parsed_line (l : srv_line) : header := (hname_of (sl_name l), sl_value l).
+
+Lemma head_headers_map (h : srv_head) : head_headers h = map parsed_line (sh_lines h).
+Proof. reflexivity. Qed.
+
+Lemma ows_sws (o : bytes) : ows o -> Forall sws o.
+Proof. apply Forall_impl. unfold sws. intros b [->| ->]; lia. Qed.
+Lemma ows_ascii (o : bytes) : ows o -> ascii o.
+Proof. apply Forall_impl. intros b [->| ->]; lia. Qed.
+Lemma ows_noLF (o : bytes) : ows o -> ~ In LF o.
+Proof. intros H Hin. unfold ows in H. rewrite Forall_forall in H. specialize (H _ Hin). unfold LF in H. lia. Qed.
+
+Lemma CRLF_utf8 : utf8_valid CRLF = true.
+Proof. reflexivity. Qed.
+
+Lemma not_in_app (c : N) (a b : bytes) : ~ In c a -> ~ In c b -> ~ In c (a ++ b).
+Proof. intros Ha Hb Hin. apply in_app_or in Hin. tauto. Qed.
+
+Lemma not_in_one (c x : N) : c <> x -> ~ In c [x].
+Proof. intros H [E|[]]. congruence. Qed.
+
+(* a header line as sent splits as: text without LF, then LF *)
+Lemma render_line_split (l : srv_line) :
+  render_line l = (sl_name l ++ [COLON] ++ sl_ows l ++ sl_value l ++ [CR]) ++ [LF].
+Proof. unfold render_line, CRLF. rewrite <- !app_assoc. reflexivity. Qed.
+
+Lemma render_line_noLF (l : srv_line) :
+  line_ok l -> ~ In LF (sl_name l ++ [COLON] ++ sl_ows l ++ sl_value l ++ [CR]).
+Proof.
+  intros (Ht & Ho & Hnl & _ & _).
+  apply not_in_app; [apply token_notin; [exact Ht|right; left; reflexivity]|].
+  apply not_in_app; [apply not_in_one; discriminate|].
+  apply not_in_app; [apply ows_noLF, Ho|].
+  apply not_in_app; [exact Hnl|apply not_in_one; discriminate].
+Qed.
+
+Lemma line_read (l : srv_line) (rest : bytes) :
+  line_ok l -> read_until_flat LF (render_line l ++ rest) = (render_line l, rest).
+Proof.
+  intros H. rewrite render_line_split, <- app_assoc. cbn [app].
+  apply read_until_flat_line. apply render_line_noLF, H.
+Qed.
+
+Lemma line_utf8 (l : srv_line) : line_ok l -> utf8_valid (render_line l) = true.
+Proof.
+  intros (Ht & Ho & _ & Hu & _). unfold render_line.
+  apply utf8_valid_app; [apply utf8_valid_ascii, token_ascii, Ht|].
+  apply utf8_valid_app; [reflexivity|].
+  apply utf8_valid_app; [apply utf8_valid_ascii, ows_ascii, Ho|].
+  apply utf8_valid_app; [exact Hu|reflexivity].
+Qed.
+
+Lemma line_not_blank (l : srv_line) : line_ok l -> beq (render_line l) CRLF = false.
+Proof.
+  intros ((Hne & Ht) & _). unfold render_line. destruct (sl_name l) as [|b n]; [contradiction|].
+  inversion Ht as [|? ? Hb _]; subst. apply tchar_props in Hb. cbn [app beq CRLF].
+  destruct (N.eqb_spec b CR); [tauto|reflexivity].
+Qed.
+
+Lemma parse_header_line_ok (l : srv_line) : line_ok l -> parse_header_line (render_line l) = Some (parsed_line l).
+Proof.
+  intros (Ht & Ho & _ & _ & Hw). unfold parse_header_line, render_line.
+  replace (sl_name l ++ [COLON] ++ sl_ows l ++ sl_value l ++ CRLF)
+    with ((sl_name l ++ COLON :: (sl_ows l ++ sl_value l)) ++ CRLF) by (app_norm; reflexivity).
+  rewrite strip_crlf_app.
+  rewrite split_once_app by (apply token_notin; [exact Ht|left; reflexivity]).
+  rewrite trim_start_ows; [reflexivity|apply ows_sws, Ho|exact Hw].
+Qed.
+
+Lemma rheader_loop_step (l : srv_line) (f : nat) (rest : bytes) (acc : headers) :
+  line_ok l -> rheader_loop_flat (S f) (render_line l ++ rest) acc = rheader_loop_flat f rest (parsed_line l :: acc).
+Proof.
+  intros H. cbn [rheader_loop_flat].
+  rewrite (line_read l rest H), (line_utf8 l H), (line_not_blank l H), (parse_header_line_ok l H).
+  reflexivity.
+Qed.
+
+Lemma rheader_loop_end (f : nat) (rest : bytes) (acc : headers) :
+  rheader_loop_flat (S f) (CRLF ++ rest) acc = Ok (rev acc, rest).
+Proof. reflexivity. Qed.
+
+Lemma rheader_loop_ok (lines : list srv_line) : forall (f : nat) (acc : headers) (rest : bytes),
+  Forall line_ok lines -> (length lines < f)%nat ->
+  rheader_loop_flat f (concat (map render_line lines) ++ CRLF ++ rest) acc = Ok (rev acc ++ map parsed_line lines, rest).
+Proof.
+  induction lines as [|l lines IH]; intros f acc rest Hok Hf.
+  - destruct f as [|f]; [cbn [length] in Hf; lia|]. cbn [map concat app]. rewrite rheader_loop_end, app_nil_r. reflexivity.
+  - destruct f as [|f]; [cbn [length] in Hf; lia|]. inversion Hok as [|? ? Hl Hls]; subst.
+    cbn [map concat]. rewrite <- app_assoc. rewrite rheader_loop_step by exact Hl.
+    rewrite IH; [|exact Hls|cbn [length] in Hf; lia]. cbn [rev map]. rewrite <- app_assoc. reflexivity.
+Qed.
+
+Lemma lines_length (lines : list srv_line) : (length lines <= length (concat (map render_line lines)))%nat.
+Proof.
+  induction lines as [|l lines IH]; [cbn; lia|].
+  cbn [map concat length]. rewrite app_length. rewrite render_line_split, app_length. cbn [length]. lia.
+Qed.
+
+(* status line *)
+Definition status_line (h : srv_head) : bytes :=
+  sh_version h ++ [SP] ++ dec_render (status_code (sh_status h)) ++ [SP] ++ sh_phrase h ++ CRLF.
+
+Lemma render_head_split (h : srv_head) :
+  render_head h = status_line h ++ concat (map render_line (sh_lines h)) ++ CRLF.
+Proof. unfold render_head, status_line. rewrite <- !app_assoc. reflexivity. Qed.
+
+Lemma status_line_split (h : srv_head) :
+  status_line h = (sh_version h ++ [SP] ++ dec_render (status_code (sh_status h)) ++ [SP] ++ sh_phrase h ++ [CR]) ++ [LF].
+Proof. unfold status_line, CRLF. rewrite <- !app_assoc. reflexivity. Qed.
+
+Lemma status_line_noLF (h : srv_head) : head_ok h ->
+  ~ In LF (sh_version h ++ [SP] ++ dec_render (status_code (sh_status h)) ++ [SP] ++ sh_phrase h ++ [CR]).
+Proof.
+  intros (_ & Hv & _ & _ & Hp & _).
+  apply not_in_app; [exact Hv|]. apply not_in_app; [apply not_in_one; discriminate|].
+  apply not_in_app; [apply digits_notin; [apply dec_render_digits|left; reflexivity]|].
+  apply not_in_app; [apply not_in_one; discriminate|].
+  apply not_in_app; [exact Hp|apply not_in_one; discriminate].
+Qed.
+
+Lemma status_line_read (h : srv_head) (rest : bytes) : head_ok h ->
+  read_until_flat LF (status_line h ++ rest) = (status_line h, rest).
+Proof.
+  intros H. rewrite status_line_split, <- app_assoc. cbn [app].
+  apply read_until_flat_line, status_line_noLF, H.
+Qed.
+
+Lemma status_line_utf8 (h : srv_head) : head_ok h -> utf8_valid (status_line h) = true.
+Proof.
+  intros (_ & _ & Hv & _ & _ & Hp & _). unfold status_line.
+  apply utf8_valid_app; [exact Hv|]. apply utf8_valid_app; [reflexivity|].
+  apply utf8_valid_app; [apply utf8_valid_ascii, digits_ascii, dec_render_digits|].
+  apply utf8_valid_app; [reflexivity|]. apply utf8_valid_app; [exact Hp|reflexivity].
+Qed.
+
+Lemma parse_status_line_ok (h : srv_head) : head_ok h ->
+  parse_status_line (status_line h) = Some (sh_version h, sh_status h).
+Proof.
+  intros H. pose proof H as (Hsp & _ & _ & Hs & _).
+  unfold parse_status_line. rewrite (status_line_utf8 h H). cbn [negb].
+  unfold splitn3_sp, status_line. cbn [app].
+  rewrite split_once_app by exact Hsp.
+  rewrite split_once_app by (apply digits_notin; [apply dec_render_digits|left; reflexivity]).
+  rewrite parse_u16_render by (pose proof (status_code_range _ Hs); lia).
+  rewrite status_of_code_code by exact Hs. reflexivity.
+Qed.
+
+(* what parse_response_flat does once the head is read (the tail of its definition, verbatim) *)
+Definition resp_finish (version : bytes) (status : N) (hs : headers) (l2 : bytes) : outcome (response * bytes) :=
+  let chunked := match hget (HKnown H_TransferEncoding) hs with Some te => beq te TE_chunked | None => false end in
+  if chunked then
+    match chunk_loop_flat (S (length l2)) l2 [] with
+    | Ok (body, l3) =>
+      let hs' := hremove (HKnown H_TransferEncoding) hs ++ [(HKnown H_ContentLength, dec_render (N.of_nat (length body)))] in
+      Ok ({| s_version := version; s_status := status; s_headers := hs'; s_body := body |}, l3)
+    | Err e => Err e
+    | Crash w => Crash w
+    end
+  else
+    match hget (HKnown H_ContentLength) hs with
+    | Some cl =>
+      match parse_usize cl with
+      | None => Err E_Response
+      | Some n =>
+        match read_exact_flat_N n l2 with
+        | Some (d, l3) => Ok ({| s_version := version; s_status := status; s_headers := hs; s_body := d |}, l3)
+        | None => Err E_Stream
+        end
+      end
+    | None => Ok ({| s_version := version; s_status := status; s_headers := hs; s_body := [] |}, l2)
+    end.
+
+Lemma parse_response_head (h : srv_head) (payload : bytes) : head_ok h ->
+  parse_response_flat (render_head h ++ payload) =
+  resp_finish (sh_version h) (sh_status h) (head_headers h) payload.
+Proof.
+  intros H. pose proof H as (_ & _ & _ & _ & _ & _ & Hl).
+  unfold parse_response_flat. rewrite render_head_split, <- !app_assoc.
+  rewrite (status_line_read h _ H). rewrite (parse_status_line_ok h H).
+  rewrite rheader_loop_ok; [reflexivity|exact Hl|].
+  rewrite app_length. pose proof (lines_length (sh_lines h)). lia.
+Qed.
+
+(* ================= 4. payloads: Content-Length, none, chunked ================= *)
+Lemma chunked_flag_true (hs : headers) : is_chunked hs ->
+  match hget (HKnown H_TransferEncoding) hs with Some te => beq te TE_chunked | None => false end = true.
+Proof. unfold is_chunked. intros ->. apply beq_refl. Qed.
+
+Lemma chunked_flag_false (hs : headers) : ~ is_chunked hs ->
+  match hget (HKnown H_TransferEncoding) hs with Some te => beq te TE_chunked | None => false end = false.
+Proof.
+  unfold is_chunked. intros H. destruct (hget (HKnown H_TransferEncoding) hs) as [te|]; [|reflexivity].
+  apply beq_neq. intros ->. apply H. reflexivity.
+Qed.
+
+Lemma parse_usize_dec_str (cl : bytes) (n : N) : dec_str cl n -> n <= usize_max -> parse_usize cl = Some n.
+Proof. intros (Hne & Hd & Hv) Hn. apply parse_unsigned_digits; assumption. Qed.
+
+Lemma dec_str_render (n : N) : dec_str (dec_render n) n.
+Proof. split; [apply dec_render_nonempty|]. split; [apply dec_render_digits|apply dec_digits_render]. Qed.
+
+Lemma resp_finish_cl (v : bytes) (s : N) (hs : headers) (cl body rest : bytes) :
+  ~ is_chunked hs -> hget (HKnown H_ContentLength) hs = Some cl ->
+  dec_str cl (N.of_nat (length body)) -> N.of_nat (length body) <= usize_max ->
+  resp_finish v s hs (body ++ rest) = Ok ({| s_version := v; s_status := s; s_headers := hs; s_body := body |}, rest).
+Proof.
+  intros Hc Hcl Hd Hmax. unfold resp_finish. rewrite (chunked_flag_false hs Hc). cbv zeta. cbn iota.
+  rewrite Hcl, (parse_usize_dec_str cl _ Hd Hmax), read_exact_flat_N_app. reflexivity.
+Qed.
+
+Lemma resp_finish_none (v : bytes) (s : N) (hs : headers) (rest : bytes) :
+  ~ is_chunked hs -> hget (HKnown H_ContentLength) hs = None ->
+  resp_finish v s hs rest = Ok ({| s_version := v; s_status := s; s_headers := hs; s_body := [] |}, rest).
+Proof.
+  intros Hc Hcl. unfold resp_finish. rewrite (chunked_flag_false hs Hc). cbv zeta. cbn iota. rewrite Hcl. reflexivity.
+Qed.
+
+(* one chunk *)
+Lemma hex_line_read (hx : bytes) (n : N) (rest : bytes) : hex_str hx n ->
+  read_until_flat LF (hx ++ CRLF ++ rest) = (hx ++ CRLF, rest).
+Proof.
+  intros (_ & Hd & _).
+  replace (hx ++ CRLF ++ rest) with ((hx ++ [CR]) ++ LF :: rest) by (unfold CRLF; app_norm; reflexivity).
+  replace (hx ++ CRLF) with ((hx ++ [CR]) ++ [LF]) by (unfold CRLF; app_norm; reflexivity).
+  apply read_until_flat_line. apply not_in_app; [apply hex_notin; [exact Hd|reflexivity]|apply not_in_one; discriminate].
+Qed.
+
+Lemma hex_line_utf8 (hx : bytes) (n : N) : hex_str hx n -> utf8_valid (hx ++ CRLF) = true.
+Proof.
+  intros (_ & Hd & _). apply utf8_valid_ascii, ascii_app; [apply hex_ascii, Hd|].
+  unfold CRLF, CR, LF. repeat constructor.
+Qed.
+
+Lemma parse_chunk_flat_data (hx d rest : bytes) : chunk_ok (hx, d) ->
+  parse_chunk_flat (chunk_enc hx d ++ rest) = Ok (Some d, rest).
+Proof.
+  intros (Hne & Hhx & Hmax). cbn [fst snd] in *. unfold parse_chunk_flat, chunk_enc.
+  replace ((hx ++ CRLF ++ d ++ CRLF) ++ rest) with (hx ++ CRLF ++ (d ++ CRLF ++ rest)) by (app_norm; reflexivity).
+  rewrite (hex_line_read hx _ _ Hhx), (hex_line_utf8 hx _ Hhx). cbn [negb].
+  rewrite (parse_usize_hex_line hx _ Hhx Hmax).
+  destruct (N.eqb_spec (N.of_nat (length d)) 0) as [E|E]; [destruct d; [contradiction|cbn [length] in E; lia]|].
+  rewrite read_exact_flat_N_app. reflexivity.
+Qed.
+
+Lemma parse_chunk_flat_last (hx rest : bytes) : hex_str hx 0 ->
+  parse_chunk_flat (hx ++ CRLF ++ CRLF ++ rest) = Ok (None, rest).
+Proof.
+  intros Hhx. unfold parse_chunk_flat.
+  rewrite (hex_line_read hx _ _ Hhx), (hex_line_utf8 hx _ Hhx). cbn [negb].
+  rewrite (parse_usize_hex_line hx 0 Hhx) by (unfold usize_max; lia). reflexivity.
+Qed.
+
+Lemma chunks_enc_cons (c : bytes * bytes) (cs : list (bytes * bytes)) (last : bytes) :
+  chunks_enc (c :: cs) last = chunk_enc (fst c) (snd c) ++ chunks_enc cs last.
+Proof. unfold chunks_enc. cbn [map concat]. rewrite <- app_assoc. reflexivity. Qed.
+
+Lemma chunks_enc_nil (last : bytes) : chunks_enc [] last = last ++ CRLF ++ CRLF.
+Proof. reflexivity. Qed.
+
+Lemma chunk_loop_ok (last : bytes) (cs : list (bytes * bytes)) : forall (f : nat) (acc rest : bytes),
+  Forall chunk_ok cs -> hex_str last 0 -> (length cs < f)%nat ->
+  chunk_loop_flat f (chunks_enc cs last ++ rest) acc = Ok (acc ++ concat (map snd cs), rest).
+Proof.
+  induction cs as [|[hx d] cs IH]; intros f acc rest Hok Hl Hf.
+  - destruct f as [|f]; [cbn [length] in Hf; lia|]. rewrite chunks_enc_nil. cbn [chunk_loop_flat].
+    replace ((last ++ CRLF ++ CRLF) ++ rest) with (last ++ CRLF ++ CRLF ++ rest) by (app_norm; reflexivity).
+    rewrite parse_chunk_flat_last by exact Hl. cbn [map concat]. rewrite app_nil_r. reflexivity.
+  - destruct f as [|f]; [cbn [length] in Hf; lia|]. inversion Hok as [|? ? Hc Hcs]; subst.
+    rewrite chunks_enc_cons. cbn [fst snd chunk_loop_flat]. rewrite <- app_assoc.
+    rewrite parse_chunk_flat_data by exact Hc.
+    rewrite IH; [|exact Hcs|exact Hl|cbn [length] in Hf; lia]. cbn [map concat snd]. rewrite <- app_assoc. reflexivity.
+Qed.
+
+Lemma chunks_enc_length (cs : list (bytes * bytes)) (last : bytes) : (length cs <= length (chunks_enc cs last))%nat.
+Proof.
+  induction cs as [|c cs IH]; [cbn [length]; lia|].
+  rewrite chunks_enc_cons, app_length. unfold chunk_enc at 1, CRLF. rewrite !app_length. cbn [length]. lia.
+Qed.
+
+Lemma resp_finish_chunked (v : bytes) (s : N) (hs : headers) (cs : list (bytes * bytes)) (last rest : bytes) :
+  is_chunked hs -> Forall chunk_ok cs -> hex_str last 0 ->
+  resp_finish v s hs (chunks_enc cs last ++ rest) =
+  Ok ({| s_version := v; s_status := s; s_headers := dechunked_headers hs (concat (map snd cs));
+         s_body := concat (map snd cs) |}, rest).
+Proof.
+  intros Hc Hok Hl. unfold resp_finish. rewrite (chunked_flag_true hs Hc). cbv zeta. cbn iota.
+  rewrite (chunk_loop_ok last cs); [reflexivity|exact Hok|exact Hl|].
+  rewrite app_length. pose proof (chunks_enc_length cs last). lia.
+Qed.
+
+(* --- the parse theorems for a conforming server --- *)
+Lemma parse_cl_lemma (h : srv_head) (body rest : bytes) : head_ok h -> cl_framed h body ->
+  parse_response_flat (render_head h ++ body ++ rest) =
+  Ok ({| s_version := sh_version h; s_status := sh_status h; s_headers := head_headers h; s_body := body |}, rest).
+Proof.
+  intros H (Hc & cl & Hcl & Hd & Hmax). rewrite parse_response_head by exact H.
+  apply (resp_finish_cl _ _ _ cl); assumption.
+Qed.
+
+Lemma parse_nobody_lemma (h : srv_head) (rest : bytes) : head_ok h -> no_body h ->
+  parse_response_flat (render_head h ++ rest) =
+  Ok ({| s_version := sh_version h; s_status := sh_status h; s_headers := head_headers h; s_body := [] |}, rest).
+Proof.
+  intros H (Hc & Hcl). rewrite parse_response_head by exact H. apply resp_finish_none; assumption.
+Qed.
+
+Lemma parse_chunked_general (h : srv_head) (cs : list (bytes * bytes)) (last rest : bytes) :
+  head_ok h -> is_chunked (head_headers h) -> Forall chunk_ok cs -> hex_str last 0 ->
+  parse_response_flat (render_head h ++ chunks_enc cs last ++ rest) =
+  Ok ({| s_version := sh_version h; s_status := sh_status h;
+         s_headers := dechunked_headers (head_headers h) (concat (map snd cs));
+         s_body := concat (map snd cs) |}, rest).
+Proof.
+  intros H Hc Hok Hl. rewrite parse_response_head by exact H. apply resp_finish_chunked; assumption.
+Qed.
+
+(* the canonical encoder *)
+Lemma take_chunks_spec (sizes : list nat) : forall (body : bytes),
+  Forall (fun n => (0 < n)%nat /\ N.of_nat n <= usize_max) sizes -> fold_right Nat.add 0%nat sizes = length body ->
+  concat (take_chunks sizes body) = body /\
+  Forall (fun d => d <> [] /\ N.of_nat (length d) <= usize_max) (take_chunks sizes body).
+Proof.
+  induction sizes as [|n ss IH]; intros body Hs Hsum.
+  - cbn [fold_right] in Hsum. destruct body; [|discriminate]. split; [reflexivity|constructor].
+  - inversion Hs as [|? ? [Hn Hmax] Hss]; subst. cbn [fold_right] in Hsum. cbn [take_chunks concat].
+    destruct (IH (skipn n body) Hss) as [Hc Hf]; [rewrite skipn_length; lia|].
+    split; [rewrite Hc; apply firstn_skipn|].
+    constructor; [|exact Hf].
+    assert (Hlen : length (firstn n body) = n) by (apply firstn_length_le; lia).
+    rewrite Hlen. split; [|exact Hmax]. intros E. rewrite E in Hlen. cbn [length] in Hlen. lia.
+Qed.
+
+Lemma chunked_encode_general (up : bool) (sizes : list nat) (body : bytes) : sizes_ok sizes body ->
+  exists cs, chunked_encode up sizes body = chunks_enc cs (hex_render up 0) /\ Forall chunk_ok cs /\
+             concat (map snd cs) = body /\ map snd cs = take_chunks sizes body.
+Proof.
+  intros [Hs Hsum]. destruct (take_chunks_spec sizes body Hs Hsum) as [Hc Hf].
+  set (cs := map (fun d : bytes => (hex_render up (N.of_nat (length d)), d)) (take_chunks sizes body)).
+  exists cs.
+  assert (Hm : map snd cs = take_chunks sizes body).
+  { unfold cs. rewrite map_map. cbn [snd]. apply map_id. }
+  split; [reflexivity|]. split; [|split; [rewrite Hm; exact Hc|exact Hm]]. unfold cs.
+  apply Forall_map. eapply Forall_impl; [|exact Hf]. intros d [Hne Hmax].
+  unfold chunk_ok. cbn [fst snd]. split; [exact Hne|]. split; [apply hex_render_str|exact Hmax].
+Qed.
+
+Lemma parse_chunked_lemma (h : srv_head) (up : bool) (sizes : list nat) (body rest : bytes) :
+  head_ok h -> is_chunked (head_headers h) -> sizes_ok sizes body ->
+  parse_response_flat (render_head h ++ chunked_encode up sizes body ++ rest) =
+  Ok ({| s_version := sh_version h; s_status := sh_status h;
+         s_headers := dechunked_headers (head_headers h) body; s_body := body |}, rest).
+Proof.
+  intros H Hc Hs. destruct (chunked_encode_general up sizes body Hs) as (cs & -> & Hok & Hb & _).
+  rewrite parse_chunked_general; [rewrite Hb; reflexivity|exact H|exact Hc|exact Hok|apply hex_render_str].
+Qed.
